@@ -2101,7 +2101,9 @@ class PPEnumFieldType(FieldType):
             self._make_text_cache_for_val(
                 value, field_palette, by_fmt_cache)
 
-        return by_value_cache[key]
+        ch_chunks, align = by_value_cache[key]
+        # (a copy of the cached list: the caller may modify the list it gets)
+        return list(ch_chunks), align
 
     def _make_text_cache_for_val(self, value, cp, by_fmt_cache) -> None:
         # populate self._cache for value
